@@ -545,12 +545,23 @@ example : ∃ (ps : List Nat) (fr : List (Nat × Nat)), fr ≠ [] ∧ ps ≠ [] 
 /-- the frozen gate is the inner gate at the full parameter vector (by definition), hence
 unitary whenever the inner gate is unitary at every parameter vector -/
 theorem C18_frozen_unitary (v : GVal R) (fr : List (Nat × Ang R))
-    (hv : ∀ ps, IsUnitary v.dim (v.u ps)) (ps : List (Ang R)) :
+    (hv : ∀ ps, IsUnitary v.dim (look (v.u ps))) (ps : List (Ang R)) :
     (GVal.frozen fr v).u ps = v.u (fullParams ps fr) ∧
-    IsUnitary (GVal.frozen fr v).dim ((GVal.frozen fr v).u ps) :=
+    IsUnitary (GVal.frozen fr v).dim (look ((GVal.frozen fr v).u ps)) :=
   ⟨rfl, hv _⟩
-example : ∃ v : GVal ℂ, ∀ ps, IsUnitary v.dim (v.u ps) :=
-  ⟨GVal.const [2] (sx K0), fun _ => C18_unitary_sx K0 K0_valid⟩
+example : ∃ v : GVal ℂ, ∀ ps, IsUnitary v.dim (look (v.u ps)) :=
+  ⟨GVal.const [2] (sx K0), fun _ => by
+    have h := C18_unitary_sx K0 K0_valid
+    unfold IsUnitary at *
+    have e : toM (GVal.const [2] (sx K0)).dim (look ((GVal.const [2] (sx K0)).u [])) =
+        toM 2 (sx K0) := by
+      ext i j; exact look_tab 2 (sx K0) i j i.2 j.2
+    simpa [GVal.const, mkFam] using e ▸ h⟩
+
+/-- the driver stores intermediate matrices as tables; reading a table back gives the matrix it
+was made from (on the index range), so tabulation is an evaluation strategy only -/
+theorem C18_table (d : Nat) (f : M R) : toM d (look (tab d f)) = toM d f := by
+  ext i j; exact look_tab d f i j i.2 j.2
 
 /-- `EmbeddedGate.get_unitary` (`_map_matrix` into the identity): for a level map that is
 one-to-one into `[0, D)` the embedded matrix is unitary whenever the inner gate is -/
